@@ -64,6 +64,50 @@ def search_keys(stop_at=None):
     return fails, n
 
 
+def value_key_pairs():
+    """(label, annotation, value a, value b): a == b and hash(a) == hash(b) but they are different values that marshal differently
+    (or must at least marshal as they do in a cold process) - what a cache keyed by the *value* would conflate."""
+    import decimal
+    import fractions
+    import pendulum
+    td = datetime.timedelta
+    return [
+        ("timedelta vs pendulum duration in months", td, td(days=30), pendulum.duration(months=1)),
+        ("pendulum durations in days vs months", td, pendulum.duration(days=30), pendulum.duration(months=1)),
+        ("timedelta vs pendulum duration in years", td, td(days=365), pendulum.duration(years=1)),
+        ("negative durations", td, -td(days=30), -pendulum.duration(months=1)),
+        ("Decimal scale", decimal.Decimal, decimal.Decimal("1.0"), decimal.Decimal("1.00")),
+        ("int vs bool", int, 1, True),
+        ("float vs int", float, 1.0, 1),
+        ("Fraction vs int", fractions.Fraction, fractions.Fraction(2, 1), 2),
+        ("aware datetimes of one instant", datetime.datetime, datetime.datetime(2020, 1, 1, 12, tzinfo=UTC),
+         datetime.datetime(2020, 1, 1, 13, tzinfo=datetime.timezone(datetime.timedelta(hours=1)))),
+        ("list[timedelta]", list[td], [td(days=30)], [pendulum.duration(months=1)]),
+    ]
+
+
+def search_value_keys(stop_at=None):
+    import typelib
+    warnings.simplefilter("ignore")
+    fails, n = [], 0
+    for label, T, a, b in value_key_pairs():
+        for first, second in ((a, b), (b, a)):
+            for opname, op in (("marshal", lambda v: typelib.marshal(v, t=T)), ("encode", lambda v: typelib.encode(v, t=T))):
+                n += 1
+                clear_typelib_caches()
+                cold = outcome(lambda: op(second))
+                clear_typelib_caches()
+                outcome(lambda: op(first))                       # warm every value-keyed cache with the equal value
+                warm = outcome(lambda: op(second))
+                if not eq(cold, warm):
+                    fails.append({"kind": "value-key-congruence", "label": label, "op": opname, "first": repr(first), "second": repr(second),
+                                  "failure": f"{opname}({second!r}, t={getattr(T, '__name__', T)}) = {cold!r} in a cold process but {warm!r} after {opname}({first!r}) ran first"})
+                    if stop_at and len(fails) >= stop_at:
+                        return fails, n
+    clear_typelib_caches()
+    return fails, n
+
+
 def deep_mutate(x, rnd):
     if isinstance(x, list):
         x.append("MUTATED")
